@@ -11,7 +11,7 @@
 # Mapping:  let/var/const x = e; x = e; x[i] = e -> Assign;  x += e, x++ -> AugAssign;  if / else -> If;  while -> While;
 #   for (let i = A; C; i++) body -> Assign i = A; While(C, body + [i += 1]);   while ((m = R.exec(S)) !== null) body ->
 #   For(m, Call(R.exec_all, S), body)  (the caller admits it for a GLOBAL pattern only: that loop visits every match in turn);
-#   return; expression statements;  c ? a : b -> IfExp;  || && -> BoolOp;  == === -> Eq;  != !== -> NotEq;  < <= > >= ;
+#   return; continue; expression statements;  c ? a : b -> IfExp;  || && -> BoolOp;  == === -> Eq;  != !== -> NotEq;  < <= > >= ;
 #   + - ; ! -> Not; unary - ;  a.b -> Attribute;  a[e] -> Subscript;  f(x) -> Call;  new RegExp(a, b) -> Call(Name('RegExp'));
 #   /re/flags -> JsRegex (an ast.Constant whose value is the tuple ('regex', pattern, flags));  `..${e}..` -> JoinedStr with the
 #   text pieces as Constants;  [..] -> List;  null -> Constant(None);  true / false;  decimal integers;  '..' and ".." strings.
@@ -369,7 +369,11 @@ class Parser:
             e = self.expr()
             self.eat(';')
             return [self.loc(ast.Return(value=e), t)]
-        for kw in ('function', 'class', 'try', 'throw', 'switch', 'do', 'break', 'continue'):
+        if self.at('continue'):
+            self.i += 1
+            self.eat(';')
+            return [self.loc(ast.Continue(), t)]
+        for kw in ('function', 'class', 'try', 'throw', 'switch', 'do', 'break'):
             if self.at(kw):
                 self.err('statement %s is outside the subset' % kw)
         e = self.expr()
